@@ -17,6 +17,40 @@ CLAIMED = {
         ref='DESIGN.md 6/C17',
         note='trusts z3, the symx proxy engine (self-tested against Python ints), and the hand transcription of the '
              'ARM ARM pseudocode / register field tables in spec/'),
+    'C01': dict(
+        text='Every data-processing encoding row (153 rows: ARM A1/A2, Thumb T1-T4) is stepped symbolically through the '
+             'real emulate_cycle with all instruction fields, all 34 physical registers, NZCVQ/GE/IT/AIF and the mode as '
+             'solver variables; per path the solver shows the whole post-state (every bank, CPSR, SPSRs, all system '
+             'registers, memory) equals the ARM ARM operation pseudocode. Bounded only by enumerated architecture '
+             'versions (quick 6,7; thorough 4-7) and by excluding architecturally UNPREDICTABLE inputs.',
+        ref='DESIGN.md 6/C01',
+        note='trusts z3, the symx engine, the oracle transcription (spec/isa_dp.py, spec/state.py); summaries of leaf '
+             'helpers are re-proved against the real code on every run'),
+    'C10': dict(
+        text='Banking: get/set/get_rmode/set_rmode/get_spsr/set_spsr run from an arbitrary symbolic register file with '
+             'symbolic register number and mode and are compared with the B1.3.2 bank table (one inductive step = all '
+             'histories). Range: every register/SPSR/PC value in [0,2^32) after every exception entry and after the '
+             'instruction rows prone to unwrapped arithmetic (the functional tables assert it for all their rows).',
+        ref='DESIGN.md 6/C10',
+        note='trusts z3, symx, the bank-table transcription; configurations enumerated (sec, nosec, sec+virt)'),
+    'C11': dict(
+        text='Every exception-entry function (undef, svc, smc, data abort, irq, fiq, hyp trap, reset) is executed from an '
+             'arbitrary symbolic state (whole CPSR, PC, SCTLR.{V,VE,TE,EE,NMFI}, all SCR bits, HCR routing bits, '
+             'HSCTLR, vector base registers) and the full post-state is compared with the B1.9 pseudocode incl. frame.',
+        ref='DESIGN.md 6/C11',
+        note='trusts z3, symx, spec/state.py; external/asynchronous aborts are constant-False stubs in the repository'),
+    'C13': dict(
+        text='MemA/MemU get/set (priv/unpriv), fetch: address, value, E, SCTLR.A/U, mode and the memory array symbolic; '
+             'value, footprint (pointwise extensional memory equality), faults with DFSR/DFAR, round trip and fetch '
+             'endianness decided by the solver for sizes 1,2,4,8 and arch 5,6,7.',
+        ref='DESIGN.md 6/C13',
+        note='trusts z3, symx, the MemA/MemU transcription; MPU/MMU off'),
+    'C16': dict(
+        text='One hub operation from an arbitrary hub state: up to 3 controllers with symbolic beginnings and contents '
+             '(adjacent/gapped/overlapping), symbolic address and value, sizes 1,2,4,8: result, exact footprint, '
+             'first-match priority, unmapped=0, no host error, device length invariant (inductive over histories).',
+        ref='DESIGN.md 6/C16',
+        note='trusts z3, symx and the models of struct.pack/unpack and bytearray slicing; device sizes enumerated'),
 }
 
 NOT_BUILT = 'check not built yet (framework under construction; see DESIGN.md Appendix A)'
